@@ -40,7 +40,7 @@ def run(ctx):
         for combo in itertools.product(KINDS, repeat=n):
             progs.append(amlgen.prog(g, {"t": "ResourceTemplate", "ch": [g.descriptor(k) for k in combo]}))
     # total size across 63/64, 255/256 (buffer-size integer width) and 4095/4096
-    for n in list(range(0, 14)) + [20, 40, 80, 150, 300 if th else 170]:
+    for n in list(range(0, 14)) + [20, 40, 80, 150, 255, 256, 257, 300 if th else 260]:
         for _ in range(3):
             progs.append(amlgen.prog(g, g.template(n)))
     ctx.samples = [progs[0], progs[30], progs[-1]]
